@@ -27,8 +27,22 @@ M = {
             "T < 100 and a country whose no-feed optimum is below T (JPN, GBR, FRA at T=50); T=100 unchanged"),
  "C03-m2": ("C03", ["C03"], "`DELAY.get(...) or NMONTHS` swallows a configured shut-off month of 0",
             "shutoff: immediate and a country whose no-feed optimum exceeds 100 % (ARG, AUS, BRA, … 9 of 164 under nuclear winter)"),
- "C02-m1": ("C02", ["C02"], "", ""),
- "C02-m2": ("C02", ["C02"], "", ""),
+ "C02-m1": ("C02", ["C02"], "shortcut that skips the feed/biofuel share caps of resilient foods when the cap is 100 % (in round 2 the caps are relative to a zero series, so 100 % of 0 is a real bound)",
+            "methane SCP or cellulosic sugar in the scenario, shutoff continued / continued_after_10_percent_fed, a country not already at its biofuel ceiling; only the feed-maximising round is wrong"),
+ "C02-m2": ("C02", ["C02", "C01"], "seaweed counted in tonnes instead of kcals in the biofuel total (SEAWEED_KCALS factor dropped in get_biofuel_sum)",
+            "seaweed in the scenario, biofuel demand still positive once seaweed is produced (continued shut-off schedules), a coastal country that round 2 granted biofuel; only round 3"),
+ "C11-m1": ("C11", ["C11"], "units assertion of Food.__truediv__ moved behind the monthly-series return",
+            "both operands monthly series with different label triples and the operator '/'"),
+ "C11-m2": ("C11", ["C11"], "monthly all_less_than_or_equal_to uses exclude_fat for the protein clause",
+            "the two inclusion flags differ, a series operand, protein the only nutrient that exceeds"),
+ "C13-m1": ("C13", ["C13", "C14"], "the known-to-fail correction (shutoff: immediate) is applied to the caller's option dictionary before copying",
+            "ALB/SLV (or ECU) with their trigger options, and the dictionary inspected after the call or re-used for later countries"),
+ "C13-m2": ("C13", ["C13"], "head-count override written before SWT is mapped to SWZ",
+            "country Eswatini (SWT) together with any <species>_head override"),
+ "C15-m1": ("C15", ["C15"], "the cap at 1 is only applied to countries that have a polygon on the map (fill_data_for_map returns the capped ratio)",
+            "a selected country without a polygon in naturalearth_lowres (BHR, BRB, CPV, MUS, SGP, MLT) that is more than 100 % fed"),
+ "C15-m2": ("C15", ["C15"], "the parsed country selection accumulates on the runner object",
+            "a sequence of runs on the same ScenarioRunnerNoTrade object with at least two different non-empty countries_list values"),
 }
 for mid, (prop, checks, what, needs) in M.items():
     d = os.path.join(ROOT, mid)
